@@ -17,14 +17,14 @@ from __future__ import annotations
 import re
 import itertools
 import torch
-from mc.util import V, call, rnd
+from mc.util import V, call, rnd, randn, gen
 from mc.props import _solve_common as sc
 from mc.props._solve_common import DT, EPS, shp, bcast_shape
 
 ID = "C01"
 LEVEL = "exploration"
 DESIGN_REF = "DESIGN.md §5 C01"
-RULE = ("case = one point of the union of nine complete sub-lattices (op / batch / opt / rhs / slice / reject / scale / mix / "
+RULE = ("case = one point of the union of eleven complete sub-lattices (op / batch / opt / rhs / slice / reject / scale / mix / budget / sing / "
         "f32, see module docstring) over operator kind (17) x method (7) x {no E, E, E+M, M only} x E dtype x "
         "spectrum class (SPD, indefinite Hermitian, non-normal non-Hermitian) x n x ncols x batch shapes of "
         "(A, B, E, M) x dtype x (tolerance, posdef, max_niter, resid_calc_every | Broyden maxiter, line_search, "
@@ -358,11 +358,49 @@ def _plane_mix(tier):
     return out
 
 
+def _plane_sing(tier):
+    """one batch element of magnitude 1e8 whose first shifted system is EXACTLY singular (upper triangular A, shift
+    equal to a diagonal entry: the direct solve takes its retry branch) next to a well-conditioned element of
+    magnitude 1: every regular (batch, column) system has to be solved to ITS OWN accuracy"""
+    out = []
+    for dtype in ["f64", "c128"]:
+        for kind in ["dense", "mv"]:
+            for method in [None, "exactsolve", "custom_exactsolve"]:
+                for which in (0, 1):
+                    for em in ("E", "EM"):
+                        c = mk(plane="sing", method=method, opkind=kind, E=em,
+                               Edtype=("complex" if dtype == "c128" else "real"), dtype=dtype, spec="nonherm", n=4,
+                               ncols=2, **_pat(em, ("2", "2", "2", "")))
+                        c["sing"] = which
+                        out.append(c)
+    return out
+
+
+def _plane_budget(tier):
+    """finite termination: on a Hermitian positive definite system of size n <= 3 (kappa = 3) conjugate gradients
+    needs at most n iterations; with max_niter = n, and with the default budget, it must converge silently.
+    (A budget that is silently one iteration short shows at n = 1 with the default, and at max_niter = n.)"""
+    out = []
+    for dtype in ["f64", "c128"]:
+        for kind in ["dense_auto", "mv_h"]:
+            for (em, ed) in [("none", "-"), ("E", "real")]:
+                for (n, ncols) in [(1, 1), (1, 2), (2, 1), (2, 2), (3, 2)]:
+                    for posdef in [None, True]:
+                        for mx in ["default", "n"]:
+                            for pat in BATCH3[:2]:
+                                c = mk(plane="budget", method="cg", opkind=kind, E=em, Edtype=ed, dtype=dtype,
+                                       spec="spd", n=n, ncols=ncols, posdef=posdef, max_niter=mx, **_pat(em, pat))
+                                out.append(c)
+    return out
+
+
 def cases(tier, seed):
     vseeds = [0] if tier == "quick" else [0] + [int(seed) * 1000 + k for k in (1, 2, 3)]
     out = []
     out += _plane_scale(tier)
     out += _plane_mix(tier)
+    out += _plane_budget(tier)
+    out += _plane_sing(tier)
     out += _plane_reject(tier)
     out += _plane_op(tier, vseeds)
     out += _plane_batch(tier)
@@ -371,7 +409,7 @@ def cases(tier, seed):
     out += _plane_slice(tier)
     out += _plane_f32(tier)
     # canonical order: simplest first (stable sort on a few size keys)
-    order = {"reject": 0, "op": 1, "batch": 2, "rhs": 3, "slice": 4, "f32": 5, "opt": 6, "scale": 7, "mix": 8}
+    order = {"reject": 0, "op": 1, "batch": 2, "rhs": 3, "slice": 4, "f32": 5, "opt": 6, "scale": 7, "mix": 8, "budget": 9, "sing": 10}
     out.sort(key=lambda c: (order[c["plane"]], c["vseed"] != 0, c["n"] * c["ncols"]))
     return out
 
@@ -399,6 +437,8 @@ def solver_options(cfg):
         mx = cfg["max_niter"]
         if mx == "10n":
             o["max_niter"] = 10 * n
+        elif mx == "n":
+            o["max_niter"] = n
         elif mx != "default":
             o["max_niter"] = int(mx)
         if method != "gmres":
@@ -441,6 +481,20 @@ def build_case(cfg):
             p["E"] = Em
             Bm[..., :, k] = Bm[..., :, k] * 1e4
         p["B"] = Bm
+    if cfg.get("sing") is not None:
+        k = int(cfg["sing"])
+        n = cfg["n"]
+        big = torch.triu(randn((n, n), dt, gen(4242)))
+        diag = torch.arange(1, n + 1, dtype=torch.float64).to(dt)
+        big = big - torch.diag(torch.diagonal(big)) + torch.diag(diag)
+        Am, Em = p["A"].clone(), p["E"].clone()
+        # without M: A - e I has an exact zero pivot for e = 1e8 * (first diagonal entry).  With M the pencil
+        # A = 1e8 M big gives A - e M = M (1e8 big - e I): singular up to the rounding of the product (a merely
+        # ill-conditioned column is not judged either)
+        Am[k] = (big if p["M"] is None else (p["M"] if p["M"].dim() == 2 else p["M"][k]) @ big) * 1e8
+        Em[k, 0] = diag[0] * 1e8
+        Em[k, 1] = 2.5e8
+        p["A"], p["E"] = Am, Em
     s = cfg.get("scale")
     if s is not None:
         p["A"] = p["A"] * s
@@ -546,7 +600,7 @@ def judge(cfg, p, A, M, o, batch, tag=""):
     # ---- silence on well-conditioned points
     must = method != "gmres" and kmax <= 200
     if method in KRYLOV or method is None:
-        must = must and cfg["max_niter"] == "10n"
+        must = must and (cfg["max_niter"] == "10n" or cfg["plane"] == "budget")
         if cfg["posdef"] is True and method in ("cg", None) and herm_flag and not s_is_hpd:
             must = False          # caller's contract: posdef=True promises Hermitian positive definiteness
     if method == "broyden1":
